@@ -20,7 +20,7 @@ func genEvTumbling(ref core.CaseRef, r *rand.Rand, alShare int) *evCase {
 	c.SizeMs = pick(r, []int64{250, 1000, 1000, 2000, 60000, 700, 1300, 7000, 11000, 13000})
 	c.MooMs = pick(r, []int64{0, 0, c.SizeMs / 2, 2 * c.SizeMs, 5 * c.SizeMs})
 	if r.Intn(100) < alShare {
-		c.AlMs = pick(r, []int64{c.SizeMs, 3 * c.SizeMs})
+		c.AlMs = pick(r, []int64{c.SizeMs, 3 * c.SizeMs, c.SizeMs / 2, c.SizeMs / 4})
 	}
 	c.Grouped = r.Intn(4) > 0
 	keys := evKeyDomain(r, c.Grouped)
